@@ -63,10 +63,13 @@ REQUIRE = {
     "c3_move_evals_before_render": 150,
     "c4_edit_press_row_evals": 40,
     "judged_with:Pile-weight0": 8,
-    "judged_with:Edit-masked-comb": 8,
-    "judged_with:Edit-masked-wide": 4,
-    "judged_with:Edit-multiline": 8,
+    "judged_with:Edit-masked-comb": 3,
+    "judged_with:Edit-masked-wide": 2,
+    "judged_with:Edit-multiline": 3,
     "judged_with:Edit-long-caption": 8,
+    # round 5: spy leaves whose geometry depends on the focus ARGUMENT
+    "judged_with:focus-dependent-rows": 30,
+    "judged_with:focus-dependent-width": 15,
     # every container/decoration of the statement was part of judged cases
     **{f"judged_with:{k}": 8 for k in ("Pile", "Columns", "Frame", "Filler", "Padding", "Overlay", "BoxAdapter", "LineBox", "AttrMap", "GridFlow", "ListBox", "Edit")},
     # mechanism functions reached
@@ -455,7 +458,8 @@ def edit_rows_with_position(r, width):
 
 
 # ----------------------------------------------------------------------------- size histories
-TOUCH_OPS = ("render", "render", "rows", "cursor", "pack")
+TOUCH_OPS = ("render", "render", "rows", "cursor", "pack", "key", "key", "press")
+TOUCH_KEYS = ("down", "down", "up", "page down", "page up", "right", "left", "end", "home")
 TOUCH_DELTAS = ("half", "half", "double", -1, -2, -3, 1, 2, 4, 7)
 
 
@@ -463,7 +467,12 @@ def gen_history(rng):
     """a short history of touching the SAME tree at other sizes before probing at the case's size; sizes are
     transforms of the probe size so that the history is meaningful for any (re-rooted) tree"""
     n = rng.choice([1, 1, 2, 2, 3])
-    touch = [{"op": rng.choice(TOUCH_OPS), "dc": rng.choice(TOUCH_DELTAS), "dr": rng.choice((0, 0, "half", -1, 1, 3))} for _ in range(n)]
+    touch = [{"op": rng.choice(TOUCH_OPS), "dc": rng.choice(TOUCH_DELTAS + (0, 0)), "dr": rng.choice((0, 0, "half", "half", -1, -2, 1, 3))} for _ in range(n)]
+    for t in touch:
+        if t["op"] == "key":
+            t["key"] = rng.choice(TOUCH_KEYS)
+        elif t["op"] == "press":
+            t["at"] = [rng.randint(0, 40), rng.randint(0, 30)]
     return {"touch": touch, "rerender": rng.random() < 0.5, "c3_first": rng.random() < 0.4}
 
 
@@ -505,13 +514,26 @@ def apply_history(ctx, root, o, size, focus, hist, log):
                     w.get_cursor_coords(s2)
                 elif op == "pack":
                     w.pack(s2, focus)
+                elif op == "key":
+                    # a real scroll / focus move while the tree has the other size (what a user does before a resize)
+                    keep.append(w.render(s2, focus))
+                    if w.selectable():
+                        w.keypress(s2, t.get("key", "down"))
+                elif op == "press":
+                    keep.append(w.render(s2, focus))
+                    at = t.get("at", [0, 0])
+                    w.mouse_event(s2, "mouse press", 1, at[0] % s2[0], at[1] % (s2[1] if len(s2) > 1 else max(1, keep[-1].rows())), focus)
                 else:
                     keep.append(w.render(s2, focus))
                 ctx.count("hist_touches")
                 ctx.count("hist_touch:" + op)
             except Exception:  # noqa: BLE001  (the other size need not fit: not judged)
                 ctx.count("hist_touch_raised_not_judged")
-        if hist.get("rerender"):
+        if any(t["op"] in ("key", "press") for t in hist["touch"]):
+            # keys / presses at the other size legitimately change what is drawn (focus, scroll position): the screen is redrawn
+            # at the probe size afterwards -- the caller observes afresh; what is carried over is widget state, not canvases
+            ok = False
+        elif hist.get("rerender"):
             try:
                 c = root.w.render(size, focus)
                 if c is o.canvas:
@@ -546,6 +568,7 @@ class Case:
         self.log = []
         self.root = None
         self.subs = []
+        self.fdep = bool({"focus-dependent-rows", "focus-dependent-width"} & T.kinds_of(recipe))
         self.moves_done = []  # accepted move_cursor_to_coords calls so far on self.root (replayed by blame)
 
     def look(self, root):
@@ -559,6 +582,9 @@ class Case:
                 # the history changed what is drawn at this size (e.g. scroll state): observe afresh, no stale state left
                 self.ctx.count("hist_changed_picture_reobserved")
                 o = observe(root, self.size, self.log, self.focus)
+                if o.ok and any(t["op"] in ("key", "press") for t in self.hist["touch"]):
+                    o.after_history = True
+                    self.ctx.count("hist_probed_after_keys_or_presses_at_other_size")
         return o
 
     def chill(self):
@@ -591,6 +617,13 @@ class Case:
         tag = "c1"
         sfx = f":{when}" if when else ""
         ctx = self.ctx
+        if when and self.fdep:
+            # the action may have moved the focus and, with geometry that depends on the focus argument, changed what fits:
+            # the fit precondition has to be re-established for the new state (this gives up the cached canvases for such trees)
+            o = observe(self.root, self.size, self.log, self.focus)
+            if not o.ok:
+                ctx.count("c1_after_action_not_judged_focus_dependent_no_longer_fits")
+                return
         chain = focus_chain(self.root)
         onchain = {id(n) for n in chain}
         for n in self.root.walk():
@@ -604,6 +637,11 @@ class Case:
             if any(not b.is_leaf() and not hasattr(b.w, "get_cursor_coords") for b in below):
                 # outside the quantifier: a container below does not implement the cursor protocol (Scrollable, ScrollBar)
                 ctx.count("c1_skipped_chain_without_protocol")
+                continue
+            if self.fdep and id(n) not in onchain:
+                # the fit precondition was established for the unfocused rendering of this container; with geometry that depends
+                # on the focus argument its focused rendering at the same size may not fit
+                ctx.count("c1_off_chain_not_judged_focus_dependent_geometry")
                 continue
             if n is self.root:
                 sz = self.size
@@ -873,6 +911,14 @@ class Case:
         for cell in cells:
             if cell not in o.cellmap or not self.eligible_move(o.cellmap[cell]):
                 continue
+            if self.fdep:
+                # the cursor protocol has no focus argument; urwid's containers lay themselves out as if focused ("FIXME guessing
+                # focus==True" in Pile).  With geometry that depends on the focus argument that is only meaningful for
+                # containers that WERE rendered in focus: cells below a container off the focus chain are not judged
+                chain_ids = {id(n) for n in focus_chain(root)}
+                if any(id(a) not in chain_ids for a in o.cellmap[cell].path_kinds()):
+                    ctx.count("c3_not_judged_unfocused_container_with_focus_dependent_geometry")
+                    continue
             lf = o.cellmap[cell]
             left, top, lcols, lrows = o.rects[lf.sid]
             lx, ly = cell[0] - left, cell[1] - top
@@ -892,7 +938,9 @@ class Case:
             moves = [e for e in self.log if e[0] == "move"]
             mine = [e for e in moves if e[1] == lf.sid]
             if lf.kind == "spy":
-                expect = S.accepts(lf.recipe.get("acc", "all"), lx, ly, lcols, lrows)
+                # the cursor protocol has no focus argument: the spy answers for its focused geometry
+                fcols, frows_ = lf.w.dims(lf.w.last_size, True)
+                expect = S.accepts(lf.recipe.get("acc", "all"), lx, ly, fcols, frows_)
             elif mine and (mine[-1][3], mine[-1][4]) == (lx, ly):
                 # an Edit refuses rows that hold only its caption: its own logged answer is the reference
                 expect = bool(mine[-1][5])
@@ -945,6 +993,13 @@ class Case:
                 ctx.count("c3_edit_accepted_row_checked")
                 if ly not in edit_rows_with_position(lf.recipe, lf.w.last_size[0] if lf.w.last_size else 0):
                     ctx.count("c3_edit_accepted_on_row_without_position")
+            if judge_row and not bad and self.fdep:
+                # geometry depends on the focus argument and the move may have moved the focus: the requested cell keeps its
+                # meaning only if the target leaf is still drawn where it was
+                o_new = observe(root, self.size, self.log, self.focus)
+                if not o_new.ok or tuple(o_new.rects.get(lf.sid, ())) != (left, top, lcols, lrows):
+                    judge_row = False
+                    ctx.count("c3_row_not_judged_focus_dependent_layout_shifted")
             if judge_row and not bad:
                 self.chill()
                 try:
@@ -1159,6 +1214,15 @@ def run_collect(ctx, recipe, size, focus=True, hist=None):
     return got
 
 
+def neutral(recipe):
+    """the same recipe with the focus-dependent geometry of its spy leaves switched off"""
+    if isinstance(recipe, dict):
+        return {k: neutral(v) for k, v in recipe.items() if k not in ("frows", "fcols", "fpackw")}
+    if isinstance(recipe, list):
+        return [neutral(v) for v in recipe]
+    return recipe
+
+
 def strip(recipe):
     """drop steering keys"""
     if isinstance(recipe, dict):
@@ -1259,7 +1323,11 @@ def blame(recipe, size, focus, v, hist=None):
         if not o.ok:
             return None
         if hist is not None and not hist.get("cold") and not apply_history(_NoCount, root, o, size, focus, hist, log):
-            return None
+            if not any(t["op"] in ("key", "press") for t in hist["touch"]):
+                return None
+            o = observe(root, size, log, focus)
+            if not o.ok:
+                return None
         for c_, r_ in op.get("after", []):
             try:
                 root.w.move_cursor_to_coords(size, c_, r_)
@@ -1338,7 +1406,7 @@ def blame(recipe, size, focus, v, hist=None):
                     mine = [e for e in log if e[0] == "move" and e[1] == leaf.sid]
                     on_row = ly in edit_rows_with_position(leaf.recipe, leaf.w.last_size[0] if leaf.w.last_size else 0) if leaf.kind == "Edit" else True
                     if leaf.kind == "spy":
-                        expect = S.accepts(leaf.recipe.get("acc", "all"), lx, ly, lcols, lrows)
+                        expect = S.accepts(leaf.recipe.get("acc", "all"), lx, ly, *leaf.w.dims(leaf.w.last_size, True))
                     elif mine and (mine[-1][3], mine[-1][4]) == (lx, ly):
                         expect = bool(mine[-1][5])
                     else:
@@ -1404,19 +1472,25 @@ def report(ctx, recipe, size, viols, focus=True, hist=None):
             stale = "|before-render" if hist.get("cold") else "|after-other-size"
         else:
             stale = ""
-        culprit = blame(r, s, focus, best, hist if stale else None)
+        if not stale and best["clause"] in ("c2", "c2b", "c3") and ({"focus-dependent-rows", "focus-dependent-width"} & T.kinds_of(r)):
+            # does it need a leaf whose geometry depends on the focus argument?  (same tree with those leaves made ordinary)
+            if not run_same(q, neutral(r), s, focus, hist, key):
+                stale = "|focus-dependent-geometry"
+        culprit = blame(r, s, focus, best, hist if stale in ("|after-other-size", "|before-render") else None)
         if culprit is not None:
             path, mode = culprit
         if stale:
             # the state left behind belongs to the container: the leaf class and press-1 vs other events add nothing
             path = path.split(">")[0]
             clause = {"c2b": "c2"}.get(clause, clause)
+            if stale == "|focus-dependent-geometry":
+                path = path.split("[")[0] if path.startswith(("Pile", "Columns")) else path
         sigkind = best["kind"]
         if stale and kind_family(sigkind) in ("event-misrouted", "move-misrouted"):
             # which wrong cell a stale layout happens to hit (none / neighbour / shifted col or row) is an accident of the sizes
             sigkind = kind_family(sigkind)
         sig = f"C09|{clause}|{sigkind}{stale}|{mode}|{path}"
-        wit = {"recipe": strip(r), "size": s, "focus": focus, "hist": hist if stale else None, "clause": clause, "kind": best["kind"], "op": best["op"], "blamed": path}
+        wit = {"recipe": strip(r), "size": s, "focus": focus, "hist": hist if stale in ("|after-other-size", "|before-render") else None, "clause": clause, "kind": best["kind"], "op": best["op"], "blamed": path}
         seen_sigs.append(sig)
         ctx.violation(sig, best["msg"] + f"  [root rendered at {tuple(s)}]", wit)
 
@@ -1489,6 +1563,7 @@ def run(ctx):
                     for h in SEED_HISTORIES:
                         do_case(ctx, recipe, size, None, True, h)
                 do_case(ctx, recipe, size, None, True, {"cold": True})
+                do_case(ctx, recipe, size, None, False, None)
         while ctx.more(1.0) and ncases < maxcases:
             ncases += 1
             mode = rng.choice(["box", "box", "box", "flow", "flow", "fixed"])
@@ -1555,6 +1630,8 @@ def _spy(mode="flow", **kw):
 
 
 SEED_HISTORIES = [
+    {"touch": [{"op": "key", "key": "down", "dc": 0, "dr": "half"}, {"op": "key", "key": "down", "dc": 0, "dr": "half"}, {"op": "key", "key": "page down", "dc": 0, "dr": "half"}], "rerender": True, "c3_first": False},
+    {"touch": [{"op": "press", "at": [1, 3], "dc": 0, "dr": -2}, {"op": "key", "key": "up", "dc": -1, "dr": -2}], "rerender": False, "c3_first": False},
     {"touch": [{"op": "render", "dc": "half", "dr": 0}], "rerender": True, "c3_first": False},
     {"touch": [{"op": "render", "dc": "half", "dr": "half"}, {"op": "rows", "dc": -2, "dr": 0}], "rerender": False, "c3_first": True},
     {"touch": [{"op": "cursor", "dc": "half", "dr": 0}, {"op": "pack", "dc": 4, "dr": 1}], "rerender": False, "c3_first": False},
@@ -1611,10 +1688,36 @@ SEEDS = [
     ),
     ({"k": "Filler", "c": {"k": "Edit", "cap": 2, "len": 9, "pos": 9, "wrap": "any", "mask": True, "txt": "mixed"}, "valign": "top", "height": "pack"}, [4, 6]),
     ({"k": "AttrMap", "c": {"k": "Edit", "cap": 0, "len": 6, "pos": 0, "wrap": "space", "nl": 3}}, [5]),
+    ({"k": "Pile", "items": [[["pack"], {"k": "Edit", "cap": 1, "len": 7, "pos": 0, "wrap": "any", "mask": True, "txt": "wide"}], [["pack"], _spy(rows=1)]]}, [4]),
+    ({"k": "Pile", "items": [[["pack"], _spy(rows=1, frows=2)], [["pack"], _spy(rows=2)], [["pack"], _spy(rows=1, frows=1)]], "focus": 0}, [6]),
+    ({"k": "Pile", "items": [[["pack"], _spy(rows=2)], [["pack"], _spy(rows=1, frows=2)], [["given", 2], _spy("box")]], "focus": 1}, [6, 9]),
+    ({"k": "Columns", "items": [[["weight", 1], _spy(rows=1, frows=2)], [["weight", 1], _spy(rows=2)], [["pack"], _spy("fixed", cols=2, fcols=2, frows=1)]], "div": 1, "focus": 2}, [16]),
+    ({"k": "Columns", "items": [[["pack"], _spy(rows=2, packw=3, fpackw=2)], [["weight", 1], _spy(rows=1)]], "div": 0, "focus": 0}, [12]),
+    ({"k": "GridFlow", "cells": [_spy(rows=1, frows=1), _spy(rows=1), _spy(rows=2, frows=2)], "cw": 4, "hs": 1, "vs": 0, "align": "left", "focus": 2}, [9]),
+    ({"k": "ListBox", "items": [_spy(rows=1, frows=2), _spy(rows=2), _spy(rows=1, frows=1)], "focus": 0}, [6, 9]),
+    ({"k": "ListBox", "items": [_spy(rows=2), _spy(rows=1, frows=2), _spy(rows=1)], "focus": 1}, [6, 9]),
+    ({"k": "Frame", "body": _spy("box"), "header": _spy(rows=1, frows=2), "footer": _spy(rows=1, frows=1), "fp": "header"}, [6, 9]),
+    ({"k": "Frame", "body": _spy("box"), "header": _spy(rows=2), "footer": _spy(rows=1, frows=2), "fp": "footer"}, [6, 9]),
+    ({"k": "Filler", "c": _spy(rows=2, frows=1), "valign": "bottom", "height": "pack", "bottom": 1}, [5, 8]),
+    ({"k": "Overlay", "top": _spy(rows=1, frows=2), "bottom": _spy("box"), "align": "center", "width": 4, "valign": "middle", "height": "pack"}, [10, 8]),
+    (
+        {
+            "k": "Pile",
+            "items": [
+                [["pack"], {"k": "Pile", "items": [[["pack"], _spy(rows=1, frows=2)], [["pack"], _spy(rows=3)]], "focus": 0}],
+                [["pack"], _spy(rows=2)],
+            ],
+            "focus": 1,
+        },
+        [6],
+    ),
+    ({"k": "Pile", "items": [[["pack"], _spy(rows=2)], [["given", 6], {"k": "Filler", "c": _spy(rows=2, frows=1), "valign": "bottom", "height": "pack", "bottom": 1}]], "focus": 0}, [6]),
     ({"k": "BoxAdapter", "c": _spy("box"), "h": 3}, [5]),
     ({"k": "LineBox", "c": _spy()}, [6]),
     ({"k": "GridFlow", "cells": [_spy(), _spy(), _spy()], "cw": 3, "hs": 1, "vs": 1, "align": "center"}, [8]),
     ({"k": "GridFlow", "cells": [_spy(rows=1), _spy(rows=1), {"k": "Button", "len": 2}, _spy(rows=1), _spy(rows=1), _spy(rows=1)], "cw": 6, "hs": 1, "vs": 0, "align": "left"}, [41]),
+    ({"k": "ListBox", "items": [_spy(rows=2), _spy(rows=3), _spy(rows=2, cur=[1, 1]), _spy(rows=3, cur=[2, 2]), _spy(rows=2)]}, [6, 13]),
+    ({"k": "Frame", "body": {"k": "ListBox", "items": [_spy(rows=3), _spy(rows=2), _spy(rows=3, cur=[1, 2]), _spy(rows=2, cur=[0, 1])]}, "header": _spy(rows=1)}, [6, 12]),
     ({"k": "ListBox", "items": [_spy(), _spy(), {"k": "Edit", "cap": 1, "len": 3, "pos": 1, "wrap": "any"}]}, [6, 7]),
     ({"k": "ScrollBar", "c": {"k": "Scrollable", "c": _spy()}, "side": "right"}, [6, 3]),
     ({"k": "AttrMap", "c": {"k": "Pile", "items": [[["pack"], {"k": "Button", "len": 2}], [["pack"], {"k": "CheckBox", "len": 2}]]}}, [8]),
